@@ -51,6 +51,10 @@ def configs(tier):
             out.append({"mode": "full", "count": c, "edge": edge, "conn": "default"})
         if c <= 3:
             out.append({"mode": "full", "count": c, "edge": "DE", "conn": "sym"})
+        if c == 2:
+            # user-defined subclasses of the stock edge types are requested types like any other
+            out.append({"mode": "full", "count": c, "edge": "SD", "conn": "default"})
+            out.append({"mode": "full", "count": c, "edge": "SU", "conn": "default"})
     for c in range(1, 9 if tier == "quick" else 13):
         out.append({"mode": "adjdict", "count": c, "edge": "DE", "conn": "default"})
         if c <= 10:     # with a symbolic connectivity z3 needs > 60 s from count 12 on (an 'unknown' is never a pass)
@@ -63,7 +67,7 @@ def required_markers(tier):
     return ["full", "adjdict", "lemma"]
 
 
-EDGE = {"DE": "DirectedEdge", "UE": "UnDirectedEdge", "TE": "OtherTE"}
+EDGE = {"DE": "DirectedEdge", "UE": "UnDirectedEdge", "TE": "OtherTE", "SD": "SubDE", "SU": "SubUE"}
 
 CONN_SRC = '''
 class Prod:
@@ -80,6 +84,27 @@ class Conn:
 
     def __mul__(self, r):
         return Prod(r)
+
+    # comparisons with the documented range ends are decided; any other comparison is outside this model
+    def __ge__(self, x):
+        if x <= 0:
+            return True
+        raise HarnessInterrupt("comparison outside the model of a symbolic connectivity")
+
+    def __gt__(self, x):
+        if x < 0:
+            return True
+        raise HarnessInterrupt("comparison outside the model of a symbolic connectivity")
+
+    def __le__(self, x):
+        if x >= 1:
+            return True
+        raise HarnessInterrupt("comparison outside the model of a symbolic connectivity")
+
+    def __lt__(self, x):
+        if x > 1:
+            return True
+        raise HarnessInterrupt("comparison outside the model of a symbolic connectivity")
 '''
 
 PROG_FULL = '''
@@ -218,7 +243,7 @@ def scenario(B, p):
     ensure = B.bool("ensurelink")
     env = {"count": count, "edge": B.cls(EDGE[p["edge"]]), "ensure": ensure, "conn": None}
     if p["conn"] == "sym":
-        ns = B.run(CONN_SRC, {"pick": B.oracle_ints("k", 2 * count)})
+        ns = B.run(CONN_SRC, {"pick": B.oracle_ints("k", 2 * count), "HarnessInterrupt": B.cls("HarnessInterrupt")})
         env["conn"] = B.run("c = Conn()", ns)["c"]
     B.install_rng()
     if p["mode"] == "full":
